@@ -269,6 +269,9 @@ def gen_reads(rng, case, nframes, thorough):
             kv.append("src=fp")
         if rng.random() < 0.2:
             kv.append("mv=1")
+        if api == "next" and rng.random() < 0.3:
+            # the user flips the raw mode of the live sniffer after K delivered packets (seeded/C17d: a cached handler)
+            kv.append(f"tog={rng.randint(1, max(1, nframes))}")
         if api == "loop":
             if rng.random() < 0.5:
                 kv.append(f"max={rng.choice([1, 2, 3, nframes, nframes + 1, rng.randint(1, max(1, nframes))])}")
